@@ -527,7 +527,9 @@ def process(ctx, rng, cases, prop, tag, isd_cases=None, short_terms=None, short_
     for k0 in range(0, len(cases), chunk):
         terms, meta = [], []
         for c in cases[k0:k0 + chunk]:
-            N = Net(c['topo'])
+            N = c11.try_net(ctx, c['topo'])
+            if N is None:
+                continue
             kind = c.get('kind', 'random')
             if c.get('requests') is None:
                 reqs, groups = {'vector': gen_vector_batch, 'shapes': gen_shapes_batch}.get(kind, gen_batch)(rng, N)
@@ -652,4 +654,7 @@ def run(ctx):
         'on larger or overlapping groups is classified by exists_disjoint_assignment (confirmed unsatisfiable / an '
         'assignment exists) when the product of candidate counts is <= %d, counted as not judged otherwise' % SEARCH_LIMIT,
     ]
+    for k, v in c11.GEN_STATS.items():
+        ctx.count(k, v)
+    c11.GEN_STATS.clear()
     return common.finish(ctx)
